@@ -3,7 +3,7 @@
 (* MaxLen over a boundary alphabet, for every type, with the verdict of the *)
 (* RFC production.  Complements the transition cover of MC_LangEq, whose    *)
 (* words are access words of the automaton, with arbitrary short strings.   *)
-EXTENDS Lang, TLC, Json
+EXTENDS Lang, Rare, TLC, Json
 
 CONSTANTS MaxLen, DeepLen
 \* NUL, space, %, 0, :, /, ?, #, @, A, [, ], a, g, DEL, 0x80, e-acute (0xE9), 0xFF, U+E000, U+FFFF, U+10FFFF
@@ -16,12 +16,18 @@ Limit == IF ty \in DeepTypes THEN DeepLen ELSE MaxLen
 
 Init == ty = "none" /\ w = <<>>
 Pick == ty = "none" /\ ty' \in AllTypes /\ w' = <<>>
-Grow == /\ ty # "none" /\ Len(w) < Limit
+Grow == /\ ty \notin {"none", "done"} /\ Len(w) < Limit
         /\ \E c \in Alpha :
              /\ c <= AlphaMax(ty)
              /\ w' = Append(w, c) /\ ty' = ty
              /\ PrintT(ToJson([k |-> "parse", ty |-> ty, w |-> w', ok |-> InLang(ty, w')]))
-Next == Pick \/ Grow
+\* rare character classes in every position of every component (spec/Rare.tla)
+RareStep == /\ ty # "none" /\ w = <<>>
+            /\ \E c \in RareChars : \E x \in RareTemplates(c) :
+                 /\ c <= AlphaMax(ty)
+                 /\ w' = x /\ ty' = "done"
+                 /\ PrintT(ToJson([k |-> "parse", ty |-> ty, w |-> x, ok |-> InLang(ty, x)]))
+Next == Pick \/ Grow \/ RareStep
 \* the table-driven acceptor agrees with the definition on every enumerated string
-Agree == ty # "none" => InLang(ty, w) = InLangDef(ty, w)
+Agree == ty \notin {"none", "done"} => InLang(ty, w) = InLangDef(ty, w)
 =============================================================================
